@@ -1454,6 +1454,18 @@ fn oom_lists<T: Elem>(cx: &mut Ctx, universe: &[T], max_len: usize, push_depth: 
       }
       Err(p) => cx.rep.violation(&format!("oneormany-from_vec-panic@{}", p.file_only()), &format!("OneOrMany::from({}) panicked: {}", ls, p.msg), json!({"input":ls})),
     }
+    // the public variants, built directly: whatever their form, their own JSON must deserialise to an equal value
+    match catch(|| OneOrMany::Many(l.clone())) {
+      Ok(v) => {
+        check_oom(cx, &v, l, false, "variant_many", &hist);
+      }
+      Err(p) => cx.rep.violation(&format!("oneormany-variant-panic@{}", p.file_only()), &p.msg, json!({"input":ls})),
+    }
+    if l.len() == 1 {
+      if let Ok(v) = catch(|| OneOrMany::One(l[0].clone())) {
+        check_oom(cx, &v, l, true, "variant_one", &hist);
+      }
+    }
     // FromIterator under honest and dishonest (small) size hints
     let n = l.len();
     let hints: [(usize, Option<usize>); 10] =
